@@ -225,3 +225,103 @@ def replay(ctx, payload):
     for b in o["bad"]:
         print(b)
     return 1 if o["bad"] else 0
+
+
+# ------------------------------------------------------------------------------------------
+# C02 on the same kernels: bottleneck after balancing vs. uniform and vs. the exact optimum
+
+STEP = 0.01
+
+
+def c02_kernel(item):
+    arch, idxs = item
+    out = {"bad": [], "obs": None, "n": 0}
+    try:
+        mm, sem = _MODELS[arch]
+        plain = _PLAIN[arch]
+        isa = plain["isa"].lower()
+        ports = [str(p) for p in plain["ports"]]
+        reps = _REPS[arch]
+        parser = drive.get_parser(isa)
+        kernel = parser.parse_file("\n".join(reps[i][0] for i in idxs) + "\n")
+        sem.add_semantics(kernel)
+        specs = [[(c, frozenset(ps)) for c, ps in reps[i][1]]
+                 for i, ins in zip(idxs, kernel) if ins.throughput != 0.0]
+        used = sorted(frozenset().union(*[u[1] for s_ in specs for u in s_])) if specs else []
+        opt = R.exact_optimum(specs, used) if used else 0.0
+        tps = []
+        t = sem.get_throughput_sum(kernel)
+        tps.append(max(t) if t else 0.0)
+        for _ in range(2):
+            sem.assign_optimal_throughput(kernel)
+            t = sem.get_throughput_sum(kernel)
+            tps.append(max(t) if t else 0.0)
+        uni, o1, o2 = tps
+        multi = any(len(s_) > 1 and ("nested" in _shape(s_) or "overlap" in _shape(s_))
+                    for s_ in specs)
+        for st, v in (("opt1", o1), ("opt2", o2)):
+            out["n"] += 2
+            if v > uni + 1e-9:
+                out["bad"].append((st, "worse_than_uniform", "bottleneck %.4f after %s > uniform "
+                                   "%.4f" % (v, st, uni), multi))
+            if v < opt - STEP - 1e-6:
+                out["bad"].append((st, "undercut", "bottleneck %.4f after %s undercuts the exact "
+                                   "optimum %.4f by more than the 0.01 step" % (v, st, opt), multi))
+        out["obs"] = (round(uni, 4), round(o1, 4), round(o2, 4), round(opt, 4))
+    except Exception:
+        out["bad"].append(("exception", "exception", traceback.format_exc()[-1200:], False))
+    return item, out
+
+
+def run_part_c02(ctx):
+    res = core.Result()
+    archs = ["zen1", "icx", "snb", "tx2", "a64fx"] if not ctx.thorough else drive.shipped_archs()
+    _load(ctx, archs)
+    items = []
+    for a in archs:
+        reps, _ = representatives(a, every_entry=False)
+        _REPS[a] = reps
+        red = [i for i in range(len(reps)) if sum(c for c, _ in reps[i][1]) <= MAX_PAIR_CYCLES]
+        if len(red) > PAIR_CAP:
+            red = sorted(red, key=lambda i: (-len(reps[i][1]),
+                                             -max([len(ps) for _, ps in reps[i][1]] or [0]),
+                                             i))[:PAIR_CAP]
+        items += [(a, (i,)) for i in red]
+        items += [(a, t) for t in itertools.product(red, repeat=2)]
+    out = core.pmap(c02_kernel, core.rotate(items, ctx.seed))
+    worst = (0.0, None)
+    for (arch, idxs), o in out:
+        res.states += 1
+        res.traces += 1
+        res.transitions += o["n"]
+        texts = [_REPS[arch][i][0] for i in idxs]
+        if o["obs"]:
+            res.outcomes.add((arch, o["obs"]))
+            uni, o1, o2, opt = o["obs"]
+            if o2 != uni:
+                res.nontrivial += 1
+            if o2 - opt > worst[0]:
+                worst = (round(o2 - opt, 4), [arch] + texts)
+        for st, clause, what, multi in o["bad"]:
+            res.violations.append(core.Violation(
+                {"family": "shipped", "stage": st, "clause": clause,
+                 "unequal_overlapping_port_sets": bool(multi), "alternatives": False},
+                "[%s] kernel %r: %s" % (arch, texts, what),
+                {"part": "shipped-models", "arch": arch, "kernel": texts, "what": what}))
+    res.extra["shipped_models_kernels"] = len(items)
+    res.extra["shipped_models_worst_gap_over_optimum"] = worst
+    return res
+
+
+def replay_c02(ctx, payload):
+    r = payload["replay"]
+    _load(ctx, [r["arch"]])
+    reps, _ = representatives(r["arch"], every_entry=False)
+    _REPS[r["arch"]] = reps
+    texts = [t for t, _, _ in reps]
+    idxs = tuple(texts.index(t) for t in r["kernel"])
+    _, o = c02_kernel((r["arch"], idxs))
+    print("uniform/opt1/opt2/exact optimum:", o["obs"])
+    for b in o["bad"]:
+        print(b[:3])
+    return 1 if o["bad"] else 0
